@@ -1716,6 +1716,7 @@ class InvariantLoop(LoopSpec):
             if d0 is not None:
                 d1 = self.decreases(get, interp)
                 c.prove(f"decreases:{self.name}@{tag}", core.And(d0 >= 0, d1 < d0), kind="termination")
+            c.cover(f"arbitrary-iteration:{self.name}@{tag}")
             raise core.PathInfeasible()   # end of the arbitrary-iteration path
         # loop exit: continue with invariant and negated guard
         if s.orelse:
